@@ -269,11 +269,12 @@ def matcher_family(name, seed=1):
 # flat line indices, shared reservation maps, several securities) is model-checked to refine Cgt.tla for EVERY ORDER of
 # every selection of lines from a small alphabet, and its exact outcome is replayed into the code line order and all.
 
-def lines_cfg(maxlines=3, alpha='MC_AlphaAll', **_):
+def lines_cfg(maxlines=3, alpha='MC_AlphaAll', minlines=1, **_):
     return f'''SPECIFICATION Spec
 CONSTANTS
   DayNo <- MC_LDayNo
   LSecs <- MC_LSecs
+  MinLines = {minlines}
   MaxLines = {maxlines}
   AlphabetSel <- {alpha}
 INVARIANTS LinesRefine LinesRefuseUnabsorbable LBookkeeping EmitLines
@@ -284,7 +285,9 @@ CHECK_DEADLOCK FALSE
 LINES_FAMILIES = {
     'lines_q': dict(maxlines=3, alpha='MC_AlphaAll'),       # 4 369 ordered selections of <= 3 of 17 lines
     'lines4_q': dict(maxlines=4, alpha='MC_AlphaCore'),     # <= 4 of the 11 core lines (two fills, two sale lines, split, both events)
-    'lines_t': dict(maxlines=4, alpha='MC_AlphaAll'),       # 61 489
+    'lines_fills_q': dict(minlines=6, maxlines=6, alpha='MC_AlphaFills'),   # separated fills on two days: all 720 orders
+    'lines_splits_q': dict(minlines=4, maxlines=5, alpha='MC_AlphaSplits'),  # two reorganisations on one day, the other security's split
+    'lines_t': dict(maxlines=4, alpha='MC_AlphaAll'),
     'lines5_t': dict(maxlines=5, alpha='MC_AlphaCore'),
 }
 
